@@ -7,4 +7,6 @@ R="${VERIF_REPO:-/repo}"
 git -C "$R" apply "$PWD/seeded/$ID/patch.diff" || { echo "$ID PATCH DOES NOT APPLY"; exit 2; }
 for c in "$@"; do r=$(timeout 1800 ./check $c 2>&1 | grep -E "^(OK|VIOLATION)" | tail -1); echo "$ID $c: $r"; done
 git -C "$R" checkout -- .
+# the generated files are those of the repository again
+VERIF_REPO="$R" tools/regen.sh >/dev/null 2>&1
 git checkout -q -- evidence 2>/dev/null
